@@ -268,6 +268,8 @@ def discover_enums(crate):
         if not want.startswith(crate.name + "::"):
             continue
         adt = have.get(want)
+        if adt is not None and adt.get("kind") != "Enum":
+            continue                      # the documented name now belongs to a struct: nothing to re-identify
         if adt is None:
             cands = [a for a in crate.items["adts"] if a["path"].startswith(crate.name + "::") and spec["is"](a)]
             if len(cands) != 1:
